@@ -756,18 +756,7 @@ func (vc *VC) storeLoc(st *State, l *Loc, v Val) error {
 		st.cells[l.Cell] = Val{T: vc.bind("cell", nv), Typ: cv.Typ}
 		return nil
 	}
-	if v.Loc != nil && v.Loc.Kind == LField && len(v.Loc.Path) == 0 {
-		// &x.f for a struct-valued field f stored in the heap: the pointer is an abstract reference
-		// determined by x (injective, non-nil). What is reached through it is NOT related to the value
-		// of x.f as the embedding object sees it (recorded as an assumption).
-		fn := "iptr_" + sanitize(v.Loc.Key[2:])
-		vc.decl("fun:ref.kind", "(declare-fun ref.kind (Int) Int)")
-		vc.decl("fun:"+fn, fmt.Sprintf("(declare-fun %s (Int) Int)\n(declare-fun %s_inv (Int) Int)\n(assert (forall ((x Int)) (! (and (= (%s_inv (%s x)) x) (> (%s x) 0) (= (ref.kind (%s x)) %d)) :pattern ((%s x)))))",
-			fn, fn, fn, fn, fn, fn, vc.kindID(fn), fn))
-		pt := app(SInt, fn, v.Loc.Ref)
-		if vc.dry == 0 {
-			vc.trusted["pointer to the embedded struct field "+v.Loc.Key[2:]+" is stored in the heap as an abstract reference; accesses through it are not related to the embedding object's view of that field"] = true
-		}
+	if pt, ok := vc.absPtr(v.Loc); ok {
 		v = Val{T: pt, Typ: v.Typ}
 	}
 	if v.Loc != nil {
@@ -794,6 +783,24 @@ func (vc *VC) storeLoc(st *State, l *Loc, v Val) error {
 		vc.setHeap(st, l.Key, vc.bind("E", Store(h, l.Ref, Store(inner, l.Idx, nv))), pathField(l.Path))
 	}
 	return nil
+}
+
+// absPtr: &x.f for a struct-valued field f that leaves the function's direct control (stored in the
+// heap, boxed in an interface): the pointer becomes an abstract reference determined by x (injective,
+// non-nil). What is reached through it is NOT related to the value of x.f as the embedding object
+// sees it (recorded as an assumption).
+func (vc *VC) absPtr(l *Loc) (Term, bool) {
+	if l == nil || l.Kind != LField || len(l.Path) != 0 || l.Frozen != nil {
+		return Term{}, false
+	}
+	fn := "iptr_" + sanitize(l.Key[2:])
+	vc.decl("fun:ref.kind", "(declare-fun ref.kind (Int) Int)")
+	vc.decl("fun:"+fn, fmt.Sprintf("(declare-fun %s (Int) Int)\n(declare-fun %s_inv (Int) Int)\n(assert (forall ((x Int)) (! (and (= (%s_inv (%s x)) x) (> (%s x) 0) (= (ref.kind (%s x)) %d)) :pattern ((%s x)))))",
+		fn, fn, fn, fn, fn, fn, vc.kindID(fn), fn))
+	if vc.dry == 0 {
+		vc.trusted["pointer to the embedded struct field "+l.Key[2:]+" is handed out as an abstract reference; accesses through it are not related to the embedding object's view of that field"] = true
+	}
+	return app(SInt, fn, l.Ref), true
 }
 
 // pathField: the top-level struct field a path starts with, or -1 (whole value).
